@@ -4,7 +4,7 @@ import math
 from fractions import Fraction
 import numpy as np
 from . import common as C
-from .prop_c01 import _fname
+from .prop_c01 import _fname, boundary_rates
 
 PID = 'C16'
 IMPL_KEYS = ('bounds', 'bs')     # values observed on the REAL code, sent to the driver (see check: evaluate)
@@ -13,7 +13,13 @@ BATCH = 4000
 BUDGET_S = {'quick': 60, 'thorough': 600}
 RULE = ('exhaustive (n, chunk, overlap<chunk) and (n, k, size) grids; all multi-file size lists up '
         'to a bound x chunk lengths through real flat readers; real cbin readers over chunk '
-        'durations x thread counts x cache on/off; then random larger triples. non-trivial = '
+        'durations x thread counts x cache on/off, handed over as mtscomp.Reader objects and BY PATH (batch size '
+        'cpu_count // 2, for several CPU counts); every reader also through further passes of its iterator (default, '
+        'cache=False, cache=True) and through DERIVED readers (reader[:, cols], reader * 2: what the waveform code '
+        'consumes); sample rates as Python float / int, np.float64 / np.int32 (binary64 product: compared with the float '
+        'model, and the constructor must accept exactly the rates of C01.RateOK and reject the others) and as np.float32 / '
+        'np.float16 / np.longdouble (product in that precision: judged by the clauses at the exhibited chunk length and '
+        'by the envelope of Model/C16e.lean); then random larger triples. non-trivial = '
         'more than one chunk/interval/excerpt produced (counted per distinct case)')
 ASSUMPTIONS = [
     'chunk length of flat/array/npy readers: the Lean model computes int(round(fl(600*rate))) — the float product as '
@@ -21,6 +27,15 @@ ASSUMPTIONS = [
     'half to even — from the EXACT rational value of the float sample rate handed to the real reader. No restriction on '
     'the rates: decimal rates, exact .5 ties and rates whose product lands within a few ulps of a tie are generated; the '
     'rounding model is tied to the float unit by the `fl` stream of ./check C15',
+    'sample rates given as NumPy scalars of another precision than binary64 (np.float32, np.float16, np.longdouble): '
+    '600.0 * rate is computed in the precision of the scalar (NumPy >= 2), which Model/Fl.lean does not model. The property '
+    'quantifies over chunk LENGTHS, so which length such a rate gives is not part of it: these readers are judged by the '
+    'clauses at the chunk length they exhibit (largest gap of the real bounds), their bounds are compared with '
+    'getChunkBounds at that length, and the exhibited length must lie in the envelope |cs - 600*rate| <= 1/2 + '
+    '2^-p*600*rate (theorem chunkSize_in_envelope; p = 11 / 24 / 53 - the last one for long double, whatever its width)',
+    'a compressed file opened BY PATH gets mtscomp.Reader(n_threads=cpu_count() // 2): other CPU counts are simulated by '
+    'replacing multiprocessing.cpu_count for the duration of the call; with ONE cpu n_threads = 0 and the real call raises '
+    'ZeroDivisionError (environment; iterChunksMts_tile needs 0 < bs; tallied, not judged)',
     'compressed readers: the chunk table is read from the real .ch file and judged by the Lean predicate against '
     'the chunk length int(np.round(fl(chunk_duration*rate))) the model computes from the exact rationals, and compared '
     'with the model of mtscomp\'s table; mtscomp\'s codec and thread pool are outside the model',
@@ -37,6 +52,60 @@ def _imp():
     from phylib.io import array as A
     from phylib.io import traces as T
     return A, T
+
+
+BINARY64 = ('float', 'int', 'float64', 'int32')      # kinds of sample rate whose product 600.0 * rate is a binary64 product
+OTHER_PREC = {'float16': 11, 'float32': 24, 'longdouble': 53}     # p of the envelope (long double: at least 53 bits)
+
+
+def _rate(case):
+    """the sample rate as the real reader gets it"""
+    sr, kind = case['sr'], case.get('srkind', 'float')
+    if kind == 'float':
+        return float(sr)
+    if kind == 'int':
+        return int(sr)
+    return getattr(np, kind)(sr)
+
+
+def _rate_exact(case):
+    """the exact rational value of that object (every conversion here is exact: float32/float16 -> binary64, a double ->
+    long double, an int below 2^53)"""
+    v = _rate(case)
+    return Fraction(int(v)) if case.get('srkind', 'float') in ('int', 'int32') else Fraction(float(v))
+
+
+def _pairs(it):
+    return [[int(a), int(b)] for a, b in it]
+
+
+def _stack(r, it, like):
+    got = [np.asarray(r[a:b]) for a, b in it if b > a]
+    got = np.concatenate(got, axis=0) if got else like[:0]
+    return bool(got.shape == like.shape and np.array_equal(got, like))
+
+
+def _observe(r, whole):
+    """everything C16 says about ONE real reader: bounds, several passes of its iterator, the same through derived readers
+    (`reader[:, cols]` is what `model.traces` is, traces.py:590; an arithmetic expression), and - when the recording is
+    known - that reading it chunk by chunk gives it back"""
+    it = _pairs(r.iter_chunks())
+    out = dict(bounds=[int(x) for x in r.chunk_bounds], part_bounds=[int(x) for x in r.part_bounds],
+               iter=it, n_samples=int(r.n_samples),
+               passes=[_pairs(r.iter_chunks()), _pairs(r.iter_chunks(cache=False)), _pairs(r.iter_chunks(cache=True))])
+    cols = [r.n_channels - 1, 0] if r.n_channels > 1 else [0]
+    der = {}
+    for name, dr in (('cols', r[:, cols]), ('arith', r * 2)):
+        dit = _pairs(dr.iter_chunks())
+        der[name] = dict(bounds=[int(x) for x in dr.chunk_bounds], part_bounds=[int(x) for x in dr.part_bounds],
+                         n_samples=int(dr.n_samples), iter=dit)
+        if whole is not None:
+            der[name]['concat_ok'] = _stack(dr, dit, whole[:, cols] if name == 'cols' else whole * 2)
+    out['derived'] = der
+    if whole is not None:
+        # read_by_chunks_eq_concat: reader[i0:i1] over the iterator, stacked = the recording
+        out['concat_ok'] = _stack(r, it, whole)
+    return out
 
 
 def impl(case):
@@ -60,7 +129,7 @@ def impl(case):
     if op == 'get_chunk_bounds':
         return [int(x) for x in T._get_chunk_bounds(case['sizes'], case['cs'])]
     if op == 'reader_flat':
-        sr = case['sr']
+        sr = _rate(case)
         with C.scratch_dir() as d:
             paths, blocks, row0 = [], [], 0
             for i, s in enumerate(case['sizes']):
@@ -74,16 +143,7 @@ def impl(case):
                 paths.append(p)
             r = T.get_ephys_reader(paths, sample_rate=sr, dtype=np.int16, n_channels=case['nch'],
                                    offset=case.get('offset', 0))
-            it = [[int(a), int(b)] for a, b in r.iter_chunks()]
-            it2 = [[int(a), int(b)] for a, b in r.iter_chunks()]
-            # read_by_chunks_eq_concat: reader[i0:i1] over the iterator, stacked = the recording
-            whole = np.concatenate(blocks, axis=0)
-            got = [np.asarray(r[a:b]) for a, b in it if b > a]
-            got = np.concatenate(got, axis=0) if got else whole[:0]
-            out = dict(bounds=[int(x) for x in r.chunk_bounds],
-                       part_bounds=[int(x) for x in r.part_bounds],
-                       iter=it, iter_second_pass_same=bool(it2 == it), n_samples=int(r.n_samples),
-                       concat_ok=bool(got.shape == whole.shape and np.array_equal(got, whole)))
+            out = _observe(r, np.concatenate(blocks, axis=0))
             del r
             if case.get('rewrite'):
                 # the same paths now hold a recording of another length: a reader opened afterwards (same process, same
@@ -96,39 +156,32 @@ def impl(case):
                 r2 = T.get_ephys_reader(paths, sample_rate=sr, dtype=np.int16, n_channels=case['nch'],
                                         offset=case.get('offset', 0))
                 b2 = [int(x) for x in r2.chunk_bounds]
-                cur, tiles = 0, True
-                for a, b in r2.iter_chunks():
-                    if int(a) == int(b):
-                        continue
-                    tiles = tiles and int(a) == cur and int(b) > cur
-                    cur = int(b)
-                cum = list(np.cumsum([0] + sizes2))
-                out['rewritten'] = dict(n=int(sum(sizes2)), n_samples=int(r2.n_samples), last_bound=b2[-1] if b2 else None,
-                                        tiles=bool(tiles and cur == sum(sizes2)),
-                                        file_bounds_in=bool(all(int(c) in b2 for c in cum)))
+                cum = [int(x) for x in np.cumsum([0] + sizes2)]
+                out['rewritten'] = dict(sizes=[int(x) for x in sizes2], n_samples=int(r2.n_samples), bounds=b2,
+                                        iter=_pairs(r2.iter_chunks()), file_bounds_in=bool(all(c in b2 for c in cum)))
                 del r2
         return out
     if op == 'reader_array':
-        sr = case['sr']
-        arr = np.zeros((case['sizes'][0], 2), dtype=np.int16)
-        if case.get('via') == 'npy':
+        sr = _rate(case)
+        n = case['sizes'][0]
+        arr = (np.arange(n, dtype=np.int16)[:, None] * 2 + np.arange(2, dtype=np.int16)[None, :]).astype(np.int16)
+        via = case.get('via', 'array')
+        if via == 'npy':
             # the same array through a .npy file (NpyEphysReader)
             with C.scratch_dir() as d:
                 np.save(d / 'a.npy', arr)
                 r = T.get_ephys_reader(d / 'a.npy', sample_rate=sr)
-                out = dict(bounds=[int(x) for x in r.chunk_bounds],
-                           part_bounds=[int(x) for x in r.part_bounds],
-                           iter=[[int(a), int(b)] for a, b in r.iter_chunks()],
-                           n_samples=int(r.n_samples))
+                out = _observe(r, arr)
                 del r
             return out
-        r = T.get_ephys_reader(arr, sample_rate=sr)
-        return dict(bounds=[int(x) for x in r.chunk_bounds],
-                    part_bounds=[int(x) for x in r.part_bounds],
-                    iter=[[int(a), int(b)] for a, b in r.iter_chunks()],
-                    n_samples=int(r.n_samples))
+        if via == 'random':
+            # RandomEphysReader: the same constructor lines (traces.py:453); its samples are random, only the bounds and
+            # the iterators are observed
+            return _observe(T.RandomEphysReader(n, 2, sample_rate=sr), None)
+        return _observe(T.get_ephys_reader(arr, sample_rate=sr), arr)
     if op == 'reader_cbin':
         import mtscomp
+        import multiprocessing as mp
         n, nch = case['n'], 2
         with C.scratch_dir() as d:
             p = d / 'data.bin'
@@ -136,24 +189,80 @@ def impl(case):
             mtscomp.compress(p, d / 'data.cbin', d / 'data.ch', sample_rate=case['sr'],
                              n_channels=nch, dtype=np.int16, chunk_duration=case['cd'],
                              n_threads=1, check_after_compress=False, quiet=True)
-            rd = mtscomp.Reader(n_threads=case['bs'])
-            rd.open(d / 'data.cbin', d / 'data.ch')
-            r = T.get_ephys_reader(rd)
+            half = None
+            if case.get('bypath'):
+                # the compressed file given BY PATH: `_get_ephys_constructor` creates the mtscomp reader itself, with
+                # n_threads = cpu_count() // 2 (traces.py:483).  `cpus`: the same call on a machine with that many CPUs
+                import os
+                real_count, real_os_count = mp.cpu_count, os.cpu_count
+                machine_half = mp.cpu_count() // 2
+                if case.get('cpus'):
+                    mp.cpu_count = os.cpu_count = lambda k=case['cpus']: k
+                try:
+                    half = mp.cpu_count() // 2
+                    try:
+                        r = T.get_ephys_reader(str(d / 'data.cbin') if case['bypath'] == 'str' else d / 'data.cbin')
+                    except ZeroDivisionError as e:
+                        if half >= 1:
+                            raise
+                        return dict(bs0='ZeroDivisionError: %s' % e)      # one CPU: n_threads = 0 (environment)
+                finally:
+                    mp.cpu_count, os.cpu_count = real_count, real_os_count
+                if half < 1:
+                    return dict(bs0='opened')
+                rd = r.reader
+            else:
+                rd = mtscomp.Reader(n_threads=case['bs'])
+                rd.open(d / 'data.cbin', d / 'data.ch')
+                r = T.get_ephys_reader(rd)
             out = dict(bounds=[int(x) for x in r.chunk_bounds],
-                       iter=[[int(a), int(b)] for a, b in r.iter_chunks(cache=case['cache'])],
-                       n_samples=int(r.n_samples), bs=int(rd.batch_size))
+                       iter=_pairs(r.iter_chunks(cache=case['cache'])),
+                       n_samples=int(r.n_samples), bs=int(rd.batch_size), cpu_half=half,
+                       machine_half=machine_half if case.get('bypath') else None)
             # further complete passes over the SAME reader (cache on/off in any sequence): every pass tiles the
             # recording like the first
             again = []
             for cache in case.get('again', []):
                 try:
-                    again.append([[int(a), int(b)] for a, b in r.iter_chunks(cache=cache)])
+                    again.append(_pairs(r.iter_chunks(cache=cache)))
                 except Exception as e:  # noqa
                     again.append('%s: %s' % (type(e).__name__, str(e)[:100]))
             out['again'] = again
+            # a DERIVED reader (channel selection, what `model.traces` is): its own iterator
+            try:
+                dr = r[:, [1, 0]]
+                out['derived'] = dict(bounds=[int(x) for x in dr.chunk_bounds], n_samples=int(dr.n_samples),
+                                      iter=_pairs(dr.iter_chunks(cache=case['cache'])))
+            except Exception as e:  # noqa
+                out['derived'] = '%s: %s' % (type(e).__name__, str(e)[:100])
             rd.close()
         return out
     raise ValueError(op)
+
+
+def _all_passes(ok):
+    """every list of intervals a real flat / array reader handed out: first pass, further passes, derived readers"""
+    return [ok['iter']] + list(ok['passes']) + [ok['derived'][k]['iter'] for k in ('cols', 'arith')]
+
+
+PASS_NAMES = ['iter_chunks()', 'a second iter_chunks()', 'iter_chunks(cache=False)', 'iter_chunks(cache=True)',
+              'reader[:, cols].iter_chunks()', '(reader * 2).iter_chunks()']
+
+
+def _cbin_passes(ok):
+    d = ok.get('derived')
+    return list(ok.get('again', [])) + [d['iter'] if isinstance(d, dict) else d]
+
+
+def _exhibited(case, ok):
+    """chunk length a real reader EXHIBITS: the largest gap between consecutive bounds (a lower bound of its chunk_size,
+    which is a local variable of the constructor), and whether that IS the chunk_size: the second bound lies strictly
+    inside the first file, so it was produced by the regular step"""
+    b = ok['bounds']
+    gaps = [y - x for x, y in zip(b, b[1:])]
+    cs = max(gaps) if gaps and max(gaps) > 0 else 0
+    exact = len(b) >= 2 and b[0] == 0 and 0 < b[1] < case['sizes'][0] and b[1] == cs
+    return cs, exact
 
 
 def model_query(case, impl_res):
@@ -161,18 +270,29 @@ def model_query(case, impl_res):
     ok = impl_res.get('ok')
     op = case['op']
     if op in ('reader_flat', 'reader_array'):
-        # the model gets the exact value of the float rate, never a chunk length computed in Python
-        q = dict(p=PID, op='get_chunk_bounds', sizes=case['sizes'], rate=_rat(case['sr']))
+        # the model gets the exact value of the rate, never a chunk length computed in Python
+        q = dict(p=PID, op='get_chunk_bounds', sizes=case['sizes'], rate=_rat(_rate_exact(case)))
+        kind = case.get('srkind', 'float')
+        if kind in OTHER_PREC:
+            q['prec'] = OTHER_PREC[kind]
         if ok is not None:
             q['impl'] = ok['bounds']
+            q['impl_iters'] = _all_passes(ok)
+            if kind in OTHER_PREC:
+                q['impl_cs'] = _exhibited(case, ok)[0]
+            if ok.get('rewritten'):
+                rw = ok['rewritten']
+                q['_second'] = dict(p=PID, op='get_chunk_bounds', sizes=rw['sizes'], cs=max(1, sum(rw['sizes'])),
+                                    impl=rw['bounds'], impl_iters=[rw['iter']])
         return q
     if op == 'reader_cbin':
         q = dict(p=PID, op='iter_mts', n=case['n'], cd=_rat(case['cd']), rate=_rat(case['sr']))
-        if ok is None:
-            q.update(bounds=[0, case['n']], bs=case['bs'])
+        if ok is None or 'bs0' in ok:
+            q.update(bounds=[0, case['n']], bs=case.get('bs', 1))
         else:
             # batch size: what the real mtscomp reader reports (it is what the real iterator uses)
-            q.update(bounds=ok['bounds'], impl=ok['iter'], bs=ok['bs'])
+            q.update(bounds=ok['bounds'], impl=ok['iter'], bs=ok['bs'],
+                     impl_iters=[it for it in _cbin_passes(ok) if isinstance(it, list)])
         return q
     if ok is None:
         if op == 'chunk_data':
@@ -187,20 +307,174 @@ def model_query(case, impl_res):
     return q
 
 
+BROKEN = ('satisfies every clause of the statement; differs from the model of the code: correspondence broken '
+          '(the property is no longer SHOWN to hold by the tie to the model)')
+
+
+def _corr(what):
+    return 'CORR: %s - %s' % (what, BROKEN)
+
+
+def _type_range_ok(case):
+    """is the exact product 600*rate inside the range where a multiplication in the precision of the rate's type is
+    correctly rounded to p bits and finite (normal range of the type)?  Outside, the envelope says nothing"""
+    kind = case['srkind']
+    fi = np.finfo(np.float64 if kind == 'longdouble' else getattr(np, kind))     # (the long double rates are doubles)
+    x = 600 * _rate_exact(case)
+    return x == 0 or Fraction(float(fi.tiny)) <= abs(x) <= Fraction(float(fi.max)) * Fraction(1023, 1024)
+
+
+def _judge_reader(case, impl_res, m, second):
+    """flat / in-memory / npy / random readers.  Order: (1) does the constructor accept exactly the rates it must;
+    (2) every clause of the statement on the real output (SPEC); (3) only then the comparison with the model (CORR)"""
+    kind = case.get('srkind', 'float')
+    other = kind in OTHER_PREC
+    if other:
+        if not _type_range_ok(case):
+            return None         # product outside the normal range of the rate's type: not judged (tallied)
+        lo, hi = m['env_lo'], m['env_hi']
+        must_accept, must_reject = lo >= 1, hi <= 0
+        dom = 'every rounding of 600*rate to %d bits gives a chunk length in [%d, %d]' % (OTHER_PREC[kind], lo, hi)
+    else:
+        # C01.RateOK: 1/2 + 2^-54 < 600*rate < 2^1024 - 2^970 - the rates on which the float model is the code; below, the
+        # model rejects (chunkSizeFl_pos_iff, readerChunkBoundsFl_rejects: AssertionError); above, round(inf): OverflowError
+        must_accept = m['rate_ok'] is True
+        must_reject = not must_accept
+        if must_accept != (m.get('model') is not None) and not m.get('overflow'):
+            return 'MACHINERY: RateOK and readerChunkBoundsFl disagree on the rate %r' % case['sr']
+        dom = 'C01.RateOK is %s (model chunk length %s)' % (m['rate_ok'], m.get('cs'))
+    if 'raised' in impl_res:
+        if must_accept:
+            return 'SPEC: real code raised %s (%s) at %s on an in-domain input (%s)' % (
+                impl_res['raised'], impl_res['msg'], impl_res['where'], dom)
+        if must_reject and impl_res['raised'] not in ('AssertionError', 'OverflowError'):
+            return _corr('the constructor refuses the sample rate %r, as the model does, but with %s (%s) instead of the '
+                         'AssertionError of `assert chunk_size > 0` / the OverflowError of round(inf); a rejected rate'
+                         % (case['sr'], impl_res['raised'], impl_res['msg'][:80]))
+        return None
+    ok = impl_res['ok']
+    n = sum(case['sizes'])
+    cs_obs, cs_exact = _exhibited(case, ok)
+    # (2) the clauses.  Chunk length of the gap clause: the model's for binary64 rates it accepts; otherwise the one the
+    # reader exhibits (other precisions), or none (a rate the model rejects: only the clauses without the chunk length)
+    if ok['n_samples'] != n:
+        return 'SPEC: n_samples differs from the total length'
+    key = 'impl_spec' if m.get('impl_spec') is not None else 'impl_spec_nocs'
+    if m.get(key) is not True:
+        return ('SPEC: C16 reader clause false on the real bounds (from 0 to the sample count, strictly increasing, every file '
+                'boundary, never further apart than %s samples): %s' % (
+                    (m.get('cs') if not other else cs_obs) if key == 'impl_spec' else 'the recording', str(ok['bounds'])[:200]))
+    tiles = m.get('impl_iters_tile')
+    if not isinstance(tiles, list) or len(tiles) != len(PASS_NAMES):
+        return 'MACHINERY: driver did not judge the %d iterator passes: %r' % (len(PASS_NAMES), tiles)
+    for name, t, it in zip(PASS_NAMES, tiles, _all_passes(ok)):
+        if t is not True:
+            return 'SPEC: the non-empty intervals of %s do not tile the recording in order: %s' % (name, str(it)[:200])
+    if ok.get('concat_ok') is False:
+        return 'SPEC: reader[i0:i1] over iter_chunks, stacked, differs from the recording'
+    for name in ('cols', 'arith'):
+        d = ok['derived'][name]
+        if d['n_samples'] != n:
+            return 'SPEC: n_samples of the derived reader (%s) differs from the total length' % name
+        if d.get('concat_ok') is False:
+            return 'SPEC: derived reader (%s): d[i0:i1] over d.iter_chunks(), stacked, differs from the derived recording' % name
+    rw = ok.get('rewritten')
+    if rw:
+        if second is None or 'ok' not in second:
+            return 'MACHINERY: no verdict of the driver on the rewritten recording: %r' % (second,)
+        s2 = second['ok']
+        if not (rw['n_samples'] == sum(rw['sizes']) and s2.get('impl_spec') is True and rw['file_bounds_in'] and
+                s2.get('impl_iters_tile') == [True]):
+            return ('SPEC: after the files were replaced (same paths) a newly opened reader does not have the chunk bounds '
+                    'of the new recording: %s' % rw)
+    # (3) the model of the code
+    if must_reject:
+        return _corr('the real constructor ACCEPTS the sample rate %r (chunk length exhibited: %s) that the model rejects '
+                     '(%s); its output' % (case['sr'], cs_obs, dom))
+    if m.get('model_spec') is False:
+        return 'MACHINERY: model output rejected by its own spec (contradicts the theorem)'
+    if not other and m.get('reader') != m['model']:
+        return 'MACHINERY: readerChunkBoundsFl differs from getChunkBounds with chunkSizeFl'
+    if other:
+        if cs_obs > m['env_hi'] or (cs_exact and cs_obs < m['env_lo']):
+            return _corr('chunk length %d exhibited by the reader at the %s rate %r is not a rounding of 600*rate in that '
+                         'precision (envelope [%d, %d]); the output' % (cs_obs, kind, case['sr'], m['env_lo'], m['env_hi']))
+    elif not (m['env_lo'] <= m['cs'] <= m['env_hi']):
+        return 'MACHINERY: chunkSizeFl outside its envelope (contradicts chunkSizeFl_in_envelope)'
+    if ok['bounds'] != m['model'] or ok['iter'] != m['iter'] or ok['part_bounds'] != m['part_bounds']:
+        return _corr('reader bounds / iterator / part bounds (chunk length of the model: %s, exhibited: %s); the real output'
+                     % (m.get('cs'), cs_obs))
+    for name, it in list(zip(PASS_NAMES, _all_passes(ok)))[1:]:
+        if it != ok['iter']:
+            return _corr('%s yields other intervals than the first pass; each pass' % name)
+    for name in ('cols', 'arith'):
+        d = ok['derived'][name]
+        if d['bounds'] != ok['bounds'] or d['part_bounds'] != ok['part_bounds']:
+            return _corr('chunk / part bounds of the derived reader (%s) differ from its parent\'s; the output' % name)
+    return None
+
+
+def _judge_cbin(case, impl_res, m):
+    if m.get('table_inrange') is False:
+        return None
+    if 'raised' in impl_res:
+        return 'SPEC: real code raised %s (%s) at %s on an in-domain input' % (
+            impl_res['raised'], impl_res['msg'], impl_res['where'])
+    ok = impl_res['ok']
+    if 'bs0' in ok:
+        return None     # by path on a one-cpu machine: n_threads = 0, outside `0 < bs` (tallied with what the real code did)
+    if m.get('model_spec') is False:
+        return 'MACHINERY: model output rejected by its own spec (contradicts the theorem)'
+    if ok['n_samples'] != case['n']:
+        return 'SPEC: n_samples of the compressed reader differs from the length of the recording'
+    if not case.get('bypath') and ok['bs'] != case['bs']:
+        return 'MACHINERY: mtscomp reader opened with n_threads=%s reports batch_size %s' % (case['bs'], ok['bs'])
+    if 'table_spec' not in m:
+        return 'MACHINERY: no positive chunk length for cd=%r rate=%r' % (case['cd'], case['sr'])
+    if m['table_spec'] is False:
+        return ('SPEC: compressed reader chunk bounds do not increase strictly from 0 to n or are further apart '
+                'than the chunk length (%s samples)' % m['table_cs'])
+    if m.get('impl_spec') is not True:
+        return 'SPEC: the non-empty intervals of the compressed iter_chunks do not tile the recording in order: %s' % str(ok['iter'])[:200]
+    passes = _cbin_passes(ok)
+    names = ['pass %d over the same compressed reader (cache=%s after %s)' % (k + 2, c, [case['cache']] + case['again'][:k])
+             for k, c in enumerate(case.get('again', []))] + ['reader[:, cols].iter_chunks(cache=%s)' % case['cache']]
+    tiles = iter(m.get('impl_iters_tile') or [])
+    for name, it in zip(names, passes):
+        if not isinstance(it, list):
+            return 'SPEC: %s raised %s' % (name, it)
+        if next(tiles, None) is not True:
+            return 'SPEC: the non-empty intervals of %s do not tile the recording in order: %s' % (name, str(it)[:160])
+    d = ok['derived']
+    if d['n_samples'] != case['n']:
+        return 'SPEC: n_samples of the derived compressed reader differs from the length of the recording'
+    # the model of the code
+    if case.get('bypath') and ok['bs'] not in (ok['cpu_half'], ok['machine_half']):
+        # (a batch size equal to half the CPUs of THIS machine: the code asks for the CPU count in a way the simulation does
+        # not reach - tallied, not judged)
+        return _corr('a compressed file opened by path has batch size %s, not cpu_count() // 2 = %s (traces.py:483); the '
+                     'iterator' % (ok['bs'], ok['cpu_half']))
+    if ok['iter'] != m['model']:
+        return _corr('compressed iter_chunks (batch size %s); the real output' % ok['bs'])
+    for name, it in zip(names, passes):
+        if it != ok['iter']:
+            return _corr('%s yields other intervals than the first pass; each pass' % name)
+    if d['bounds'] != ok['bounds']:
+        return _corr('chunk bounds of the derived compressed reader differ from its parent\'s; the output')
+    if ok['bounds'] != m['table']:
+        return _corr('chunk table of the compressed file differs from the model of mtscomp\'s table; the real table')
+    return None
+
+
 def judge(case, impl_res, ans):
     if 'err' in ans:
         return 'MACHINERY: driver error %s' % ans['err']
     m = ans['ok']
     op = case['op']
     if op in ('reader_flat', 'reader_array'):
-        if m.get('inrange') is False:
-            return None      # the float product 600*rate is subnormal or overflows: not modelled (tallied)
-        if m.get('model') is None:
-            # a rate of at most 1/1200 Hz: the model constructor refuses (assert chunk_size > 0); outside the
-            # property's quantifier whatever the real code does
-            return None
-    if op == 'reader_cbin' and m.get('table_inrange') is False:
-        return None
+        return _judge_reader(case, impl_res, m, ans.get('second'))
+    if op == 'reader_cbin':
+        return _judge_cbin(case, impl_res, m)
     if 'raised' in impl_res:
         return 'SPEC: real code raised %s (%s) at %s on an in-domain input' % (
             impl_res['raised'], impl_res['msg'], impl_res['where'])
@@ -217,7 +491,7 @@ def judge(case, impl_res, ans):
                     any(not (0 <= x < n) for x in ok):
                 return 'SPEC: excerpts not increasing/disjoint/in-bounds or too many samples'
         if ok != m['model']:
-            return 'CORR: get_excerpts differs from the model'
+            return _corr('get_excerpts; the real output')
         return None
     if m.get('impl_spec') is False:
         return 'SPEC: C16 predicate false on the real output'
@@ -230,55 +504,10 @@ def judge(case, impl_res, ans):
             if not set(k) <= set(f) or len(f) > cs:
                 return 'SPEC: kept part outside its chunk data or chunk larger than chunk size'
         if ok['bounds'] != m['model']:
-            return 'CORR: chunk_bounds tuples differ from the model'
-        return None
-    if op in ('reader_flat', 'reader_array'):
-        if ok['n_samples'] != sum(case['sizes']):
-            return 'SPEC: n_samples differs from the total length'
-        it = ok['iter']
-        cur = 0
-        for a, b in it:
-            if a == b:
-                continue
-            if a != cur or b < a:
-                return 'SPEC: iter_chunks intervals do not tile the recording in order'
-            cur = b
-        if cur != sum(case['sizes']):
-            return 'SPEC: iter_chunks intervals do not reach the sample count'
-        if ok.get('concat_ok') is False:
-            return 'SPEC: reader[i0:i1] over iter_chunks, stacked, differs from the recording'
-        rw = ok.get('rewritten')
-        if rw and not (rw['n_samples'] == rw['n'] == rw['last_bound'] and rw['tiles'] and rw['file_bounds_in']):
-            return ('SPEC: after the files were replaced (same paths) a newly opened reader does not have the chunk bounds '
-                    'of the new recording: %s' % rw)
-        if ok.get('iter_second_pass_same') is False:
-            return 'SPEC: a second pass of iter_chunks over the same reader differs from the first'
-        if m.get('reader') != m['model']:
-            return 'MACHINERY: readerChunkBoundsFl differs from getChunkBounds with chunkSizeFl'
-        if ok['bounds'] != m['model'] or ok['iter'] != m['iter'] or ok['part_bounds'] != m['part_bounds']:
-            return 'CORR: reader bounds/iterator/part bounds differ from the model (chunk length of the model: %s)' % m.get('cs')
-        return None
-    if op == 'reader_cbin':
-        if ok['n_samples'] != case['n']:
-            return 'SPEC: n_samples of the compressed reader differs from the length of the recording'
-        if ok['bs'] != case['bs']:
-            return 'MACHINERY: mtscomp reader opened with n_threads=%s reports batch_size %s' % (case['bs'], ok['bs'])
-        if 'table_spec' not in m:
-            return 'MACHINERY: no positive chunk length for cd=%r rate=%r' % (case['cd'], case['sr'])
-        if m['table_spec'] is False:
-            return ('SPEC: compressed reader chunk bounds do not increase strictly from 0 to n or are further apart '
-                    'than the chunk length (%s samples)' % m['table_cs'])
-        if ok['iter'] != m['model']:
-            return 'CORR: compressed iter_chunks differs from the model'
-        for k, it in enumerate(ok.get('again', [])):
-            if it != ok['iter']:
-                return ('SPEC: pass %d over the same compressed reader (cache=%s after %s) does not tile the recording '
-                        'like the first pass: %s' % (k + 2, case['again'][k], [case['cache']] + case['again'][:k], str(it)[:120]))
-        if ok['bounds'] != m['table']:
-            return 'CORR: chunk table of the compressed file differs from the model of the table'
+            return _corr('chunk_bounds tuples; the real output')
         return None
     if ok != m['model']:
-        return 'CORR: output differs from the model (predicate holds on this input)'
+        return _corr('output of %s; the real output' % op)
     return None
 
 
@@ -303,23 +532,50 @@ def tally(rep, case, impl_res, ans):
         rep.count('header_only_file:%s' % ('first' if case['sizes'][0] == 0 else 'later'))
     if case['op'] == 'reader_cbin':
         rep.count('passes_over_one_compressed_reader:%s' % ([case['cache']] + case.get('again', [])))
+        okc = impl_res.get('ok') or {}
+        if case.get('bypath'):
+            rep.count('cbin opened by path (%s), cpus %s: %s' % (
+                case['bypath'], case.get('cpus') or 'of this machine',
+                'n_threads = 0, outside 0 < bs (not judged): real %s' % okc['bs0'] if 'bs0' in okc else
+                'batch size %s%s' % (okc.get('bs'), '' if okc.get('bs') == okc.get('cpu_half') else ' (simulated CPU count not honoured)')
+                if okc else 'raised %s' % impl_res.get('raised')))
+        else:
+            rep.count('cbin opened as mtscomp.Reader object')
     if 'ok' in impl_res and case['op'] in ('chunk_bounds',):
         rep.count('chunks:%s' % min(len(impl_res['ok']), 6))
     if case['op'] in ('reader_flat', 'reader_array') and 'ok' in ans:
-        x = 600 * Fraction(case['sr'])
-        kind = 'whole' if x.denominator == 1 else 'tie(.5)' if x.denominator == 2 else 'fractional'
+        kind_ = case.get('srkind', 'float')
         mm = ans['ok']
-        rep.count('float product 600*rate: %s' % ('exact' if mm.get('product_is_double') else 'rounded'))
-        if mm.get('inrange') is False:
-            kind = 'float product outside the normal range (not judged)'
-        elif mm.get('exact_cs') is not None and mm.get('exact_cs') != mm.get('cs'):
-            kind = 'float product rounds across a .5 tie: exact-rational model %s, float model %s' % (
-                'differs', 'used')
-        elif case.get('tie_ulps') is not None:
-            kind = 'within a few ulps of a .5 tie, same chunk length as the exact product'
-        if mm.get('model') is None:
-            kind = 'rejected by the constructor (chunk length 0): real %s' % ('raised' if 'raised' in impl_res else 'accepted')
-        rep.count('chunk_length_600s*rate:' + kind)
+        real = 'raised %s' % impl_res['raised'] if 'raised' in impl_res else 'accepted'
+        rep.count('sample_rate given as:%s' % kind_)
+        if kind_ in OTHER_PREC:
+            if not _type_range_ok(case):
+                rep.count('chunk_length_600s*rate (%s): product outside the normal range of the type (not judged): real %s' % (kind_, real))
+            else:
+                lo, hi = mm['env_lo'], mm['env_hi']
+                what = 'must be rejected' if hi <= 0 else 'must be accepted' if lo >= 1 else 'either'
+                if 'ok' in impl_res:
+                    cs, exact = _exhibited(case, impl_res['ok'])
+                    if exact and hi > lo:
+                        what += ', %s end of an envelope of %d lengths' % ('lower' if cs == lo else 'upper' if cs == hi else 'inside', hi - lo + 1)
+                rep.count('chunk_length_600s*rate (%s): envelope says %s: real %s' % (kind_, what, real))
+        else:
+            x = 600 * _rate_exact(case)
+            kind = 'whole' if x.denominator == 1 else 'tie(.5)' if x.denominator == 2 else 'fractional'
+            rep.count('float product 600*rate: %s' % ('exact' if mm.get('product_is_double') else 'rounded'))
+            if mm.get('exact_cs') is not None and mm.get('exact_cs') != mm.get('cs'):
+                kind = 'float product rounds across a .5 tie: exact-rational model %s, float model %s' % (
+                    'differs', 'used')
+            elif case.get('tie_ulps') is not None:
+                kind = 'within a few ulps of a .5 tie, same chunk length as the exact product'
+            if mm.get('rate_ok') is not True:
+                kind = 'outside RateOK (%s): model rejects, real %s' % (
+                    'float product overflows' if mm.get('overflow') else
+                    'float product subnormal or zero' if mm.get('inrange') is False or x == 0 else
+                    'negative rate' if x < 0 else 'chunk length 0', real)
+            rep.count('chunk_length_600s*rate:' + kind)
+        if 'ok' in impl_res:
+            rep.count('iterator passes per reader (default x2, cache=False, cache=True, reader[:, cols], reader * 2)', 6)
     if case['op'] == 'reader_cbin' and 'ok' in ans:
         mm = ans['ok']
         if mm.get('table_exact_cs') is not None and mm.get('table_exact_cs') != mm.get('table_cs'):
@@ -366,6 +622,8 @@ def _indom(c):
         return c['n'] >= 0 and c['k'] >= 0 and c['size'] >= 1
     if op == 'reader_cbin':
         return c['n'] >= 1
+    if op in ('reader_flat', 'reader_array'):
+        return sum(c['sizes']) >= 1
     return c.get('cs', 1) >= 1
 
 
@@ -415,6 +673,42 @@ def gen(tier, rng):
             else:
                 yield dict(p=PID, op='reader_array', sizes=[3 * big + 1], sr=sr, via=['array', 'npy'][(n_ + d) % 4 // 2],
                            tie_ulps=d)
+    # the boundary of what the constructors accept (C01.RateOK; the same doubles the C01 check walks through): the doubles at
+    # and next to 1/1200 Hz, the overflow threshold of 600.0*rate, a subnormal product; zero and negative rates.  The
+    # constructor must accept exactly the rates of RateOK and raise on the others
+    for i, sr in enumerate(boundary_rates() + [0.0, -1.0, -0.0225, 1e-320, -3e305, 5e-324]):
+        if i % 5 == 0:
+            yield dict(p=PID, op='reader_flat', sizes=[5, 3], nch=1, offset=0, sr=sr)
+        else:
+            yield dict(p=PID, op='reader_array', sizes=[7 + i], sr=sr, via=['array', 'random', 'array', 'npy'][i % 4 if i % 7 == 0 else i % 3])
+    # the sample rate as another Python / NumPy number whose product with 600.0 is a binary64 product
+    for i, (sr, kind) in enumerate([(1, 'int'), (2, 'int'), (30000, 'int'), (0, 'int'), (3, 'int32'), (1, 'int32'), (-1, 'int32'),
+                                    (0.0225, 'float64'), (1 / 16, 'float64'), (0.035, 'float64'), (1 / 1200, 'float64'),
+                                    (3e305, 'float64'), (2 ** 53 - 1, 'int')]):
+        yield dict(p=PID, op='reader_array', sizes=[1300 + i], sr=sr, srkind=kind, via=['array', 'random'][i % 2])
+    yield dict(p=PID, op='reader_flat', sizes=[700, 650, 3], nch=2, offset=0, sr=1, srkind='int')
+    # ... and as a NumPy scalar of ANOTHER precision: the product is computed in that precision (Model/C16e.lean).  Rates
+    # at and next to (in the type) a .5 tie of the product, e.g. np.float32(0.0375): float32 product 22.5 -> 22, binary64
+    # product of the same rational 22.5000009 -> 23
+    for kind in ('float32', 'float16', 'longdouble'):
+        ty = getattr(np, kind)
+        kk = ([0, 1, 2, 13, 22, 37] if q else list(range(0, 40)) + [112, 187]) if kind != 'longdouble' else ([13, 22] if q else list(range(0, 40)))
+        for n_, k in enumerate(kk):
+            base = ty((k + .5) / 600.)
+            for d in (-1, 0, 1):
+                v = base if d == 0 else np.nextafter(base, ty(np.inf if d > 0 else -np.inf))
+                if kind == 'longdouble':
+                    v = _ulps((k + .5) / 600., d)           # a double, handed over as a long double
+                sr = float(v)
+                big = k + 2
+                c = dict(p=PID, op='reader_array', sizes=[3 * big + 1], sr=sr, srkind=kind,
+                         via=['array', 'random', 'array', 'npy'][(n_ + d) % 4 if (n_ + d) % 5 == 0 else (n_ + d) % 3 % 2])
+                if (n_ + d) % 6 == 0 and k:
+                    c = dict(p=PID, op='reader_flat', sizes=[2 * big + 3, big, max(1, big - 1)], nch=2, offset=0, sr=sr, srkind=kind)
+                yield c
+        for sr in (0.0375, 0.0225, 0.1, 1 / 16, 1 / 2048, 1 / 1200, 0.17):
+            yield dict(p=PID, op='reader_array', sizes=[int(600 * sr) * 3 + 5], sr=float(ty(sr)), srkind=kind)
+    yield dict(p=PID, op='reader_array', sizes=[50], sr=200.0, srkind='float16')        # float16 product overflows: not judged
     # an ordinary acquisition rate and decimal rates: far from every tie
     for sr in (30000., 25000., 2500.1, 0.1, 0.37, 1.23):
         yield dict(p=PID, op='reader_array', sizes=[int(600 * sr) * 2 + 7 if sr < 10 else 1000], sr=sr)
@@ -479,11 +773,39 @@ def gen(tier, rng):
                         continue            # quick tier: a third of the tie chunk durations
                     yield dict(p=PID, op='reader_cbin', n=n, sr=10.0, cd=cd, bs=bs, cache=cache,
                                again=[[], [True], [False, True], [True, True]][(n + bs + int(cache)) % 4])
+    # compressed files opened BY PATH: batch size cpu_count() // 2 on this machine and on simulated ones (2..9 CPUs; one
+    # CPU: n_threads = 0, the real call raises - tallied)
+    for i, (n, cd, cpus) in enumerate([(40, 0.5, None), (99, 0.5, 2), (99, 0.25, 5), (64, 0.5, 7), (99, 0.35, None), (17, 0.5, 1),
+                                       (99, 0.5, 9), (40, 0.25, 3)] if q else
+                                      [(n, cd, cpus) for n in (1, 17, 40, 99, 150) for cd in (0.25, 0.5, 0.35, 1.0)
+                                       for cpus in (None, 1, 2, 3, 4, 5, 7, 9)]):
+        yield dict(p=PID, op='reader_cbin', n=n, sr=10.0, cd=cd, bypath=['path', 'str'][i % 2], cpus=cpus, cache=bool(i % 3 != 1),
+                   again=[[], [True], [False, True], [True, True]][i % 4])
     # 5. random larger cases
     R = 3000 if q else 60000
     for _ in range(R):
-        t = rng.randrange(4)
-        if t == 0:
+        t = rng.randrange(5)
+        if t == 4:
+            # in-memory / random readers at random sample rates of every kind (binary64 kinds: compared with the float model
+            # and with RateOK; other precisions: clauses + envelope), many of them next to a .5 tie of the product
+            kind = rng.pick(['float', 'float', 'float64', 'int', 'int32', 'float32', 'float16', 'longdouble'])
+            if kind in ('int', 'int32'):
+                sr = rng.pick([rng.randrange(-2, 12), rng.randrange(0, 2 ** 31 - 1)])
+            else:
+                sr = 10 ** (rng.random() * (5.5 if kind == 'float16' else 6.7) - (3.5 if kind == 'float16' else 4.5))
+                if rng.random() < .4:
+                    sr = (rng.randrange(0, 300) + .5) / 600.
+                if kind in ('float32', 'float16'):
+                    ty = getattr(np, kind)
+                    v = ty(sr)
+                    for _ in range(rng.randrange(0, 3)):
+                        v = np.nextafter(v, ty(rng.pick([np.inf, -np.inf])))
+                    sr = float(v)
+                else:
+                    sr = _ulps(sr, rng.randrange(-2, 3))
+            n = int(abs(600 * sr)) * rng.randrange(1, 4) + rng.randrange(1, 9) if abs(600 * sr) < 2500 else rng.randrange(1, 60)
+            yield dict(p=PID, op='reader_array', sizes=[n], sr=sr, srkind=kind, via=rng.pick(['array', 'array', 'random']))
+        elif t == 0:
             cs = rng.randrange(1, 200)
             yield dict(p=PID, op='chunk_bounds', n=rng.randrange(0, 3000), cs=cs, ov=rng.randrange(0, cs))
         elif t == 1:
